@@ -236,7 +236,7 @@ pub fn find(sc: &FindScenario, ctx: &mut Ctx, bins: &Path, cmd_token: &str) -> X
     if !sc.mutations.is_empty() || sc.now_ns.is_some() || sc.rlimit_stack.is_some() || sc.env.is_some() {
         return Xc::NotComparable;
     }
-    if script_of(&sc.outcomes).is_none() || sc.ambient.nofile_headroom.is_some() {
+    if script_of(&sc.outcomes).is_none() || sc.ambient.nofile_headroom.is_some() || sc.real_children || sc.long_cwd.is_some() || sc.cwd_sub.is_some() {
         return Xc::NotComparable;
     }
     let root = ctx.scratch.join("A");
